@@ -196,6 +196,40 @@ def q_mol_sd(c, A, ctx):
     return c.molecule_shape_descriptors(mols[A["mol_i"] % len(mols)], l_max=2, radius=A["r"])
 
 
+# ---- the same three queries issued with non-default keyword arguments. They
+# are only ever asked of handles created as "keyword" crystals, which in turn
+# never receive a default-argument query that builds the bond graph: every
+# query of a crystal is always issued with the same arguments (the proviso).
+def _kw(A):
+    prof = A.get("kw") or {"tolerance": 0.25, "covalent_radii": {"8": 1.3}}
+    return prof["tolerance"], {int(k): float(v) for k, v in prof["covalent_radii"].items()}
+
+
+def q_conn_kw(c, A, ctx):
+    tol, radii = _kw(A)
+    return c.unit_cell_connectivity(tolerance=tol, covalent_radii=radii)
+
+
+def q_uc_mols_kw(c, A, ctx):
+    tol, radii = _kw(A)
+    return c.unit_cell_molecules(bond_tolerance=tol, covalent_radii=radii)
+
+
+def q_sym_mols_kw(c, A, ctx):
+    tol, radii = _kw(A)
+    return c.symmetry_unique_molecules(bond_tolerance=tol, covalent_radii=radii)
+
+
+KW_QUERIES = {
+    "conn_kw": (q_conn_kw, "P"),
+    "uc_mols_kw": (q_uc_mols_kw, "P"),
+    "sym_mols_kw": (q_sym_mols_kw, "P"),
+}
+# queries that may be asked of a keyword crystal (they never build the bond graph with default arguments)
+KW_SAFE = ["uc_atoms", "slab", "air", "asur", "density", "res", "cartsym", "repr", "cif", "cif_data",
+           "poscar", "sl_cif", "sl_res", "sl_poscar", "sl_contcar"]  # fmt: skip
+
+
 # name -> (function, role) ; role: P = populates memos, C = consumes memos,
 # N = memo free (control group), X = export
 QUERIES = {
@@ -242,6 +276,7 @@ SLOW_QUERIES = {
 }
 ALL_QUERIES = dict(QUERIES)
 ALL_QUERIES.update(SLOW_QUERIES)
+ALL_QUERIES.update(KW_QUERIES)
 
 
 # ----------------------------------------------------------------- mutators
